@@ -1,3 +1,4 @@
+import DSV.FactsOK.SrcC15
 import DSV.Generated.Facts
 /-! C15 — extracted comparisons of `ModeAggregator` / `mostCommonType` are the ones the model transcribes. -/
 namespace DSV.Props.C15.Facts
